@@ -38,6 +38,10 @@ class Spec(CheckSpec):
         for k in range(4 if tier == "quick" else 40):
             s = base_seed * 1000003 + 906000 + k
             yield {"seed": s, "shipped": "uc7_config.yaml" if k % 2 else "uc7_config_tap003.yaml", "tap_variation": s, "max_episode_length": 60, "n_ops": 60, "monitors": mons, "op_mix": {"step": 0.93, "reset": 0.02, "fault": 0.05}}
+        # a quiet defender that switches the beacon's host off once the threat actor's C2 channel is up
+        for k in range(6 if tier == "quick" else 60):
+            s = base_seed * 1000003 + 907000 + k
+            yield {"seed": s, "shipped": "uc7_config.yaml", "tap_variation": s, "tap_fast": True, "max_episode_length": 100, "n_ops": 100, "monitors": mons, "ambush": 0.95, "ambush_mode": "c2cut", "op_mix": {"step": 0.97, "reset": 0.0, "fault": 0.03}}
         for rep in range(reps):
             for name, mel, nops in shipped:
                 yield {"seed": base_seed * 1000003 + 900000 + rep * 10 + len(name), "shipped": name, "max_episode_length": mel, "n_ops": nops, "monitors": mons, "op_mix": {"step": 0.9, "reset": 0.04, "fault": 0.06}}
